@@ -221,7 +221,7 @@ REF_PROPS = {
                 quick_n=500, thorough_n=15000),
     "C09": dict(alphabet=["bin", "scal", "sum", "setitem"], profiles=["c09"],
                 clauses=["val", "sh", "grad", "cr", "np_share"], depth=(2, 3), cases=[2, 5],
-                quick_n=600, thorough_n=20000),
+                quick_n=1500, thorough_n=20000),
     "C10": dict(alphabet=["bin", "scal", "sum", "matmul", "view", "aug"], profiles=["c10"],
                 clauses=["val", "sh", "const", "grad", "np_share"], depth=(2, 3), cases=[3],
                 quick_n=800, thorough_n=20000),
